@@ -135,6 +135,35 @@ pub fn run_val(tier: &str, seed: u64, out: &mut Out) {
         });
         out.raw(&job.to_string());
     }
+    run_val_hand(out, exprs.len());
+}
+
+/// hand-written value jobs (appended to the generated ones): hoisted sub-expressions under operands JavaScript may skip
+pub fn run_val_hand(out: &mut Out, first_id: usize) {
+    let cases: &[(&str, &str)] = &[
+        ("a && o[1 instanceof z]", "((D.a) && (X(D.o)[((1) instanceof (D.z))]))"),
+        ("a || o[b instanceof z]", "((D.a) || (X(D.o)[((D.b) instanceof (D.z))]))"),
+        ("a ? 1 : o[1 instanceof z]", "((D.a) ? (1) : (X(D.o)[((1) instanceof (D.z))]))"),
+        ("a && o[b][c]", "((D.a) && (X((X(D.o)[D.b]))[D.c]))"),
+        ("a ? o[f(1)] : 2", "((D.a) ? (X(D.o)[P(D.f)(1)]) : (2))"),
+    ];
+    let datas = serde_json::json!([
+        {"$o": {"a": false, "z": 0, "b": 1, "c": "k", "o": {"$o": {"1": {"$o": {"k": "v"}}, "true": 5}}, "f": {"$fn": "ff"}}},
+        {"$o": {"a": true, "z": {"$fn": "ff"}, "b": 1, "c": "k", "o": {"$o": {"1": {"$o": {"k": "v"}}, "false": 6}}, "f": {"$fn": "ff"}}},
+        {"$o": {"a": 0, "z": null, "b": 1, "c": "k", "o": {"$o": {}}, "f": 3}}
+    ]);
+    for (k, (wxml, reference)) in cases.iter().enumerate() {
+        let src = format!("<v a=\"{{{{ {} }}}}\"/>", wxml);
+        let mut g = TmplGroup::new();
+        let diags = { crate::util::note_input(&*src); g.add_tmpl("p", &src) };
+        let max_level = diags.iter().map(|d| d.kind.level() as u8).max().unwrap_or(0);
+        let bundle = g.get_tmpl_gen_object_groups().unwrap_or_default();
+        let job = serde_json::json!({
+            "kind": "exprval", "id": first_id + k, "wxml": wxml, "src": src, "ref": reference, "bundle": bundle,
+            "max_level": max_level, "datas": datas, "shape": "hand", "size": 5,
+        });
+        out.raw(&job.to_string());
+    }
 }
 
 // ---------------------------------------------------------------- C06: guard denotation validation
